@@ -64,7 +64,9 @@ Proof.
   intro F. unfold feed_rtp. destruct (negb wk); [eexists; reflexivity|].
   destruct (existsb _ subs); [|eexists; reflexivity].
   destruct sdp as [[v k]|]; [|eexists; reflexivity].
-  destruct (rtp_boundary_ok fx k body F) as [b ->]. eexists; reflexivity.
+  unfold rtp_gate. destruct ((k =? 1) || (k =? 2)); [|eexists; reflexivity].
+  destruct (fst body); [|eexists; reflexivity].
+  destruct (rtp_boundary_ok fx k (snd body) F) as [b ->]. eexists; reflexivity.
 Qed.
 
 Lemma feed_rtp_all_ok fx wk sdp l : forall subs, fx_bound fx = true -> is_ok (feed_rtp_all fx wk sdp subs l).
